@@ -1002,12 +1002,24 @@ func (env *SpecEnv) evalCall(x *SExpr) Value {
 		return boolV(BoolLit(env.e.lockHeldSpec(env.st, ev(0), name == "held")))
 	case "emitted", "none", "count", "before", "first", "only", "last_is":
 		return env.evalTrace(name, args)
+	case "nowhere":
+		// nowhere(E): no E here and none inside any callee (by their may_emit declarations)
+		n := patName(args[0])
+		for _, evn := range env.trace {
+			if evn.MayLoop != nil && loopMayEmit(evn, n) {
+				return boolV(False)
+			}
+		}
+		return env.evalTrace("none", args)
 	case "all":
 		// all(E, cond): cond holds for every event named E on this path; inside
 		// cond the event's arguments are $0, $1, ...
 		n := patName(args[0])
 		var cs []Term
 		for _, evn := range env.trace {
+			if evn.Deep {
+				continue
+			}
 			if evn.MayLoop != nil {
 				if loopMayEmit(evn, n) {
 					return boolV(False)
@@ -1162,7 +1174,13 @@ func loopMayEmit(ev Event, name string) bool {
 }
 
 func (env *SpecEnv) evalTrace(pred string, args []*SExpr) Value {
-	tr := env.trace
+	// callee-internal events (deep markers) are invisible to the direct-level predicates
+	var tr []Event
+	for _, ev := range env.trace {
+		if !ev.Deep {
+			tr = append(tr, ev)
+		}
+	}
 	switch pred {
 	case "emitted": // at least one matching event on this path
 		var ds []Term
